@@ -96,6 +96,9 @@ impl Rep {
     fn fail(&mut self, kind: &str, detail: &str) {
         self.case_fails += 1;
         *self.stats.entry("failures".into()).or_insert(0) += 1;
+        if kind == "slow" {
+            *self.stats.entry("slow_failures".into()).or_insert(0) += 1;
+        }
         if self.case_fails <= 5 {
             self.out.push(format!("OFAIL {} {} {}", self.case_id, kind, one_line(detail)));
         }
@@ -1210,6 +1213,33 @@ fn probe_accessors(s: &Screen, others: &[&Screen], r: &mut Rng, rounds: u64) -> 
         }
     }
     None
+}
+
+/// C05-C08 are decided by the model's functional specifications; this runner only adds what the
+/// model cannot reach: it replays every script and the built-in far-edge cases (screens at the end
+/// of the u16 size range) and reports a panic of the crate as a failure of the property whose
+/// operation was being processed.
+fn run_replay_nopanic(case: &Case, _seed: u64, rep: &mut Rep) {
+    let mut ctx = Ctx::default();
+    rep.eval();
+    for (n, line) in case.lines.iter().enumerate() {
+        let Some(op) = parse_op(line) else { continue };
+        let at = format!("line {} `{}`", n + 1, if line.len() > 200 { &line[..200] } else { line });
+        match &op {
+            Op::Obs(f) => {
+                if let Err(m) = guard(|| exec_observer(&ctx, f)) {
+                    rep.fail("panic", &format!("{at}: {m}"));
+                    return;
+                }
+            }
+            _ => {
+                if let Err(m) = ctx.apply(&op) {
+                    rep.fail("panic", &format!("{at}: {m}"));
+                    return;
+                }
+            }
+        }
+    }
 }
 
 fn run_c03(case: &Case, seed: u64, rep: &mut Rep) {
@@ -4012,6 +4042,28 @@ fn builtin_cases(prop: &str, seed: u64) -> Vec<Case> {
             }
         }
     }
+    // 7. the far end of the u16 size range (the properties quantify over ALL sizes; the model's
+    //    theorems stop at 65520 and its executable form is too slow there, so these are oracle-only)
+    if matches!(prop, "C01" | "C05" | "C06" | "C07" | "C08" | "C13" | "C15") {
+        let far: [(&str, u16, u16, &[&str]); 5] = [
+            ("far1", 1, 65535, &["\x1b[65535G", "x", "y"]),
+            ("far2", 2, 65535, &["\x1b[65534G", "\u{4e16}", "\u{4e16}"]),
+            ("far3", 2, 65534, &["\x1b[65534G", "x", "\u{4e16}", "\x1b[1;65534H", "xy"]),
+            ("far4", 65535, 1, &["\x1b[65535d", "x", "y", "\n\n"]),
+            ("far5", 2, 65535, &["\x1b[2;65535H", "a", "\x1b[1K"]),
+        ];
+        for (id, rows, cols, ops) in far {
+            let mut lines = vec![format!("NEW {rows} {cols} 0 0")];
+            for o in ops {
+                lines.push(pline(o.as_bytes()));
+                lines.push("LOG".into());
+            }
+            lines.push("FMT cursor".into());
+            lines.push("FMT state".into());
+            lines.push("TEXT".into());
+            v.push(mk(id, lines));
+        }
+    }
     v
 }
 
@@ -4055,6 +4107,7 @@ fn main() {
         "C02" => Some(run_c02),
         "C03" => Some(run_c03),
         "C04" => Some(run_c04),
+        "C05" | "C06" | "C07" | "C08" => Some(run_replay_nopanic),
         "C09" => Some(run_c09),
         "C10" => Some(run_c10),
         "C11" => Some(run_c11),
@@ -4095,6 +4148,12 @@ fn main() {
     cases.extend(builtin_cases(prop, seed));
     let mut rep = Rep { out: vec![], stats: BTreeMap::new(), evals: 0, case_id: String::new(), case_fails: 0, case_known: 0, thorough };
     for case in &cases {
+        // a change that makes single sequences cost seconds would make this loop take an hour:
+        // three measured stalls per file are evidence enough, the rest of the file is skipped
+        if rep.stats.get("slow_failures").copied().unwrap_or(0) >= 3 {
+            rep.stat("cases_skipped_after_3_stalls", 1);
+            continue;
+        }
         rep.begin_case(&case.id);
         // the oracle itself must not die on a case
         let r = catch_unwind(AssertUnwindSafe(|| runner(case, seed, &mut rep)));
